@@ -348,9 +348,34 @@ class GlobalStateUnit(Unit):
         return [], [ob], {"class_attribute_writes": found}
 
 
+class SaltedValuesUnit(Unit):
+    """hash() of a string / bytes and id() of an object differ from process to process (hash randomisation, addresses): no function
+    of the generator modules may call them, except inside a __hash__ method (whose value never reaches emitted text other than
+    through set / dict iteration order, which the site obligations cover)"""
+
+    def __init__(self):
+        self.label = "salted-values"
+
+    def generate(self):
+        from . import c15frame
+        found = []
+        for rel in sorted(set(FILES) | set(c15frame.MODULES)):
+            tree, _ = extract.parse_module(rel)
+            for fn in [n for n in pyast.walk(tree) if isinstance(n, pyast.FunctionDef)]:
+                if fn.name == "__hash__":
+                    continue
+                for node in pyast.walk(fn):
+                    if isinstance(node, pyast.Call) and isinstance(node.func, pyast.Name) and node.func.id in ("hash", "id"):
+                        found.append("%s:%s L%d %s(...)" % (rel, fn.name, node.lineno, node.func.id))
+        ob = Obligation("salted-values/no-hash()-or-id()-outside-__hash__-in-the-generator-modules", [], z3.BoolVal(not found),
+                        line=None)
+        ob.external = {"ok": not found, "seconds": 0.0, "backend": "ast scan", "output": "; ".join(sorted(set(found))) or "none"}
+        return [], [ob], {"calls_found": sorted(set(found))}
+
+
 def units():
     from . import c01driver, c15frame
-    return (c01driver.units_c15() + [SitesUnit(), GlobalStateUnit(),
+    return (c01driver.units_c15() + [SitesUnit(), GlobalStateUnit(), SaltedValuesUnit(),
                                      LeanUnit("lemma:L-PERM", "lemmas/LPerm.lean", ["run_eq_of_linear_extensions"])]
             + c15frame.units())
 
